@@ -212,6 +212,11 @@ class BaseSamples:
             x = np.stack([dictionary[p] for p in parameters], axis=-1)
             for p in parameters:
                 dictionary.pop(p, None)
+        # Derived (non-init) fields, e.g. the weights of a Samples object, are
+        # recomputed by the constructor and cannot be passed to it
+        for f in fields(cls):
+            if not f.init:
+                dictionary.pop(f.name, None)
         return cls(x=x, parameters=parameters, **dictionary)
 
     def to_dataframe(self, include: list[str] | None = None) -> "pd.DataFrame":
@@ -603,6 +608,8 @@ class Samples(BaseSamples):
             sliced.effective_sample_size = sliced.xp.exp(
                 asarray(logsumexp(log_w) * 2 - logsumexp(log_w * 2), sliced.xp)
             )
+            sliced.evidence = self.evidence
+            sliced.evidence_error = self.evidence_error
         return sliced
 
 
